@@ -237,12 +237,12 @@ MUTANTS = [
     dict(id="c19-overwrite-again", prop="C19", file="src/client.rs", expect="C19-R2",
          what="idle-loop Parse arm overwrites the pending verdict again",
          old='''                                    let _ = query_router
-                                        .infer_for_batch(&ast, earlier_parse_in_batch);
+                                        .infer_for_batch(&ast, earlier_statement_in_batch);
                                 }
                             }
                             Err(error) => {''',
          new='''                                    let _ = query_router
-                                        .infer_for_batch(&ast, earlier_parse_in_batch);
+                                        .infer_for_batch(&ast, earlier_statement_in_batch);
                                 }
                                 if let Ok(o) = query_router.execute_plugins(&ast).await { plugin_output = Some(o); }
                             }
@@ -488,8 +488,8 @@ MUTANTS = [
     dict(id="c05-last-parse-wins", prop="C05", file="src/client.rs", expect="C05-R7",
          what="D22 again: the role is inferred anew at every buffered Parse",
          old='''                                    let _ = query_router
-                                        .infer_for_batch(&ast, earlier_parse_in_batch);''',
-         new='''                                    let _ = earlier_parse_in_batch;
+                                        .infer_for_batch(&ast, earlier_statement_in_batch);''',
+         new='''                                    let _ = earlier_statement_in_batch;
                                     let _ = query_router.infer(&ast);'''),
     dict(id="c05-batch-primary-not-restored", prop="C05", file="src/query_router.rs", expect="C05-R7",
          what="infer_for_batch no longer re-establishes the earlier primary decision",
@@ -548,39 +548,11 @@ MUTANTS = [
                             }
                         }
 
-                        if !server.in_transaction() {
-                            self.stats.transaction();
-                            server
-                                .stats()
-                                .transaction(self.server_parameters.get_application_name());
-
-                            // Release server back to the pool if we are in transaction mode.
-                            // If we are in session mode, we keep the server until the client disconnects.
-                            if self.transaction_mode {
-                                break;
-                            }
-                        }
-                    }
-
-                    // Some unexpected message.''',
+                        // The reply can also open the next COPY of the same query''',
          new='''                            break;
                         }
 
-                        if !server.in_transaction() {
-                            self.stats.transaction();
-                            server
-                                .stats()
-                                .transaction(self.server_parameters.get_application_name());
-
-                            // Release server back to the pool if we are in transaction mode.
-                            // If we are in session mode, we keep the server until the client disconnects.
-                            if self.transaction_mode {
-                                break;
-                            }
-                        }
-                    }
-
-                    // Some unexpected message.'''),
+                        // The reply can also open the next COPY of the same query'''),
     dict(id="c11-stray-message-in-copy-mode", prop="C11", file="src/client.rs", expect="C11-R9",
          what="D29 again: a Query is forwarded while the server is in COPY mode",
          old='''                if server.in_copy_mode() && !matches!(code, 'd' | 'c' | 'f' | 'H') {''',
